@@ -12,7 +12,7 @@ TECH = "bounded symbolic execution of the real Python source (pysym AST interpre
 CLAIMED = {
     "C19": ("DESIGN.md §4 C19",
             "For every Python int index (unbounded) and 0..4 items, and for all 1-2 character printable-ASCII names, "
-            "z3 shows lookup/membership of the real ItemsList agree with list semantics; add_table / add_sheet after the history "
+            "(names over printable ASCII and the letters ss-sharp, long s, capital and final sigma) z3 shows lookup/membership of the real ItemsList agree with list semantics; add_table / add_sheet after the history "
             "[nothing | membership test | automatic add] -> optional rename give fresh automatic names, refuse case-variant duplicates "
             "without change and append exactly one item; bounded claim, not a proof.",
             "trusted: pysym interpreter (validated by native witness replay on every run), z3; outside: save/reopen order, "
@@ -187,7 +187,8 @@ CLAIMED["C15"] = ("DESIGN.md §4 C15 (partial)",
     "is given a cell-style archive built from its own current cell-level attributes, for any two background colours in one table "
     "and again after a change between two saves; a style written by the real add_paragraph_style / update_paragraph_style / add_cell_style "
     "and read by the real Style.from_storage and cell_* accessors comes back attribute by attribute (binary32-representable sizes; known "
-    "finding for the others). The protobuf bytes of the archives are NOT claimed.",
+    "finding for the others); a stroke written by the real create_stroke reads back with its width, colour, line style, extent and stamp. "
+    "The protobuf bytes of the archives are NOT claimed.",
     "trusted: pysym; stroke run / layer records as attribute bags, create_stroke reduced to its contract; outside: style "
     "archives (nested protobuf), images, fonts, interior edges of merged blocks")
 
@@ -197,8 +198,9 @@ CLAIMED["C20"] = ("DESIGN.md §4 C20 (partial)",
     "when float() gives a finite value - nan / inf / infinity spellings stay text - and that text is kept character for character "
     "(or whitespace-squeezed as documented); rows keep file order (reversed as a whole with --reverse) and one value per column "
     "(known finding: duplicate header names); --delete / --rename touch exactly the named column; a cell spelling a finite float "
-    "(1-3 symbolic digits, decimal exponents -5..300, repr() spelling) is stored, through the real cell codec, as exactly that float. "
-    "The csv module, the Document save/reopen and the cat-numbers export are NOT covered.",
+    "(1-3 symbolic digits, decimal exponents -5..300, repr() spelling) is stored, through the real cell codec, as exactly that float, "
+    "and cat-numbers' real cell_as_string writes a number of <= 15 significant digits as text that reads back as the same number. "
+    "The csv module, the Document save/reopen and the rest of the cat-numbers export are NOT covered.",
     "trusted: pysym; float(str) decided by the real float() on class-representative strings after forking every symbolic character "
     "into its lexical class; Converter built without reading a file; outside: csv reader/writer (C level), document I/O and export, "
     "other spellings of a number than repr()'s, --date columns, command-line error reporting")
